@@ -61,6 +61,9 @@ def definitions(rng):
         did += 1
     for pos in ("first", "middle", "last"):
         defs.append(IG.default_disabled_def(did, pos)); did += 1
+    # a parameter without a Default bound (payloads Default for every T); a parameter that may be unsized
+    defs.append(IG.nodefault_def(did)); did += 1
+    defs.append(IG.unsized_def(did)); did += 1
     # sizes around the limits of narrow integers: 200 enabled variants (128..254), 300 with some disabled (> 255)
     defs.append(IG.shape(rng, did, 200, [0] * 200, kinds="unit")); did += 1
     defs.append(IG.shape(rng, did, 300, [1 if i % 13 == 4 else 0 for i in range(300)], kinds="unit")); did += 1
